@@ -28,7 +28,7 @@ ID = "C15"
 LEVEL = "fault_enumeration"
 CASES = {"quick": 2500, "thorough": 120000}
 KINDS = ["syntax", "unknown_ref", "postponed_forever", "provider_raises", "obj_processor_raises", "model_processor_raises",
-         "init_raises"]
+         "init_raises", "match_processor_raises"]
 RULE = ("fault kind x fault position k (0..5, index of the provider / processor / constructor call that fails, or of the "
         "definition whose text is damaged) x user classes on/off x 1-3 files x file that carries the fault x model size "
         "(1-4 definitions with nested sub-definitions per file). non-trivial: the failure happens after >=2 objects were "
@@ -158,8 +158,18 @@ def build(case, refs, events, arm):
         if arm.get("on") and case["kind"] == "model_processor_raises":
             raise Boom("model processor failure injected by the harness")
 
+    def id_proc(value):
+        # a match (base type) processor: runs while the object graph is being built
+        if arm.get("on") and case["kind"] == "match_processor_raises":
+            if counter["match"] == case["k"]:
+                counter["match"] += 1
+                raise Boom("match processor failure injected by the harness")
+            counter["match"] += 1
+        return value
+
+    counter["match"] = 0
     mm.register_scope_providers({"Use.ref": Provider()})
-    mm.register_obj_processors({"Def": proc, "Use": proc})
+    mm.register_obj_processors({"Def": proc, "Use": proc, "ID": id_proc})
     mm.register_model_processor(model_proc)
     return mm, classes, rec, counter
 
@@ -196,7 +206,7 @@ def evaluate(case):
         main = write_files(tmp, texts(case, damaged=True))
         arm["on"] = True
         rec["fail_at"] = case["k"] if case["kind"] == "init_raises" and classes else None
-        counter["proc"] = 0
+        counter["proc"] = counter["match"] = 0
         err = None
         try:
             mm.model_from_file(main)
@@ -219,7 +229,7 @@ def evaluate(case):
         compare_state(out, ctx, classes, before, "after_failed_load")
         # (c) same error again
         refs2 = []
-        counter["proc"] = 0
+        counter["proc"] = counter["match"] = 0
         rec["inits"] = []
         err2 = None
         try:
